@@ -125,7 +125,17 @@ struct vf_exc : std::exception {};
 #define VF_BEHAV_HOOK(kind, idx, e, fsm)
 #endif
 
+// C14: guards and actions additionally report which source / target state objects they were called with
+template <class S> auto vf_stidx_(S const&, int) -> decltype((int)S::vf_state_index) { return (int)S::vf_state_index; }
+template <class S> int vf_stidx_(S const&, long) { return 255; }
+#ifdef VF_SRCTGT_ON
+#define VF_SRCTGT(s, t) vf_log(8000, vf_stidx_(s, 0) * 256 + vf_stidx_(t, 0));
+#else
+#define VF_SRCTGT(s, t)
+#endif
+
 #define VF_STATE_BODY(I)                                                                         \
+  enum { vf_state_index = I };                                                                   \
   template <class E, class F> void on_entry(E const& e, F& f) { vf_log(VF_ENTRY(I), vf_pay(e)); VF_PROBE(3, I, f) VF_BEHAV_HOOK(0, I, e, f) } \
   template <class E, class F> void on_exit(E const& e, F& f) { vf_log(VF_EXIT(I), vf_pay(e)); VF_PROBE(1, I, f) VF_BEHAV_HOOK(1, I, e, f) }
 
@@ -135,7 +145,7 @@ struct vf_exc : std::exception {};
   template <class F, class E> void exception_caught(E const& e, F&, std::exception&) { vf_log(VF_EXC(MI), vf_pay(e)); }
 
 template <int N> struct Act {
-  template <class E, class F, class S, class T> void operator()(E const& e, F& f, S&, T&) { vf_log(VF_ACT(N), vf_pay(e)); VF_PROBE(2, N, f) VF_BEHAV_HOOK(2, N, e, f) }
+  template <class E, class F, class S, class T> void operator()(E const& e, F& f, S& s_, T& t_) { VF_SRCTGT(s_, t_) vf_log(VF_ACT(N), vf_pay(e)); VF_PROBE(2, N, f) VF_BEHAV_HOOK(2, N, e, f) }
 };
 // behaviours that submit further events while an event is being processed (C04).  Mode 0: fsm.process_event, 1: fsm.enqueue_event.
 // The nested event carries the payload of the triggering event + 1.
@@ -162,7 +172,7 @@ template <int N> struct Gc {
   template <class E, class F, class S, class T> bool operator()(E const&, F&, S&, T&) { return vf_guardc(N) != 0; }
 };
 template <int N> struct Gd {
-  template <class E, class F, class S, class T> bool operator()(E const& e, F& f, S&, T&) { VF_PROBE(0, N, f) VF_BEHAV_HOOK(3, N, e, f) return vf_guard(N) != 0; }
+  template <class E, class F, class S, class T> bool operator()(E const& e, F& f, S& s_, T& t_) { VF_SRCTGT(s_, t_) VF_PROBE(0, N, f) VF_BEHAV_HOOK(3, N, e, f) return vf_guard(N) != 0; }
 };
 
 #if VF_BE <= 1
